@@ -466,6 +466,26 @@ func ruleReceiptFlow(r *Run) {
 			return true
 		})
 		r.Check("I5", ff.Name+":once", n == 1 && !loops, ff.Body.Pos(), "forwarding posts the receipt exactly once, without retry loop (%d post sites, loops %v)", n, loops)
+		// and on every path of the forwarding code the post is executed at most once (closures and
+		// helpers looked into): a retry after an error can deliver an accepted receipt twice
+		for _, lf := range append(r.litsUnder(ff), ff) {
+			if lf.Lit != nil && lf.Outer != ff {
+				continue // nested literals are seen inlined in their parent's paths
+			}
+			for _, path := range r.Paths(lf) {
+				path := path
+				r.at(&path)
+				k := 0
+				for _, ev := range path.Events {
+					if ev.Kind == EvCall {
+						if f, ok := ev.Callee.(*types.Func); ok && f.Name() == "PostReceipt" && (post == nil || f == post) {
+							k++
+						}
+					}
+				}
+				r.CheckT("I5", ff.Name+":at-most-once-per-path", k <= 1, lf.Body.Pos(), &path, "a receipt is posted to the credit service at most once on every path (%d times here): a second attempt after an error can deliver an accepted receipt twice", k)
+			}
+		}
 	}
 	// the channel the handler queues on is the one the worker drains (wired in cmd.main)
 	if main := r.modelFunc("cmd.main"); main != nil {
